@@ -18,7 +18,8 @@ type modSet struct {
 	heaps  map[string]bool
 	fresh  map[string]bool // heaps changed only at references allocated by the callee
 	all    bool
-	emits  bool
+	emits  bool // may append arbitrary events
+	opaque bool // may append opaque events (unknown code reached through function values / external interfaces)
 	allocs bool
 }
 
@@ -40,6 +41,7 @@ func (m *modSet) addAll(o *modSet) {
 	}
 	m.all = m.all || o.all
 	m.emits = m.emits || o.emits
+	m.opaque = m.opaque || o.opaque
 	m.allocs = m.allocs || o.allocs
 }
 
@@ -391,8 +393,8 @@ func (w *World) callMods(pkg *packages.Package, c *Ctx, call *ast.CallExpr, ms *
 	}
 	fn := calleeOf(info, call)
 	if fn == nil {
-		// call through a function value: any literal of the package with an identical signature, plus events
-		ms.emits = true
+		// call through a function value: any literal of the package with an identical signature, plus opaque events
+		ms.opaque = true
 		ms.allocs = true
 		ft, _ := info.TypeOf(call.Fun).(*types.Signature)
 		for _, fi := range w.Funcs {
@@ -500,7 +502,7 @@ func (w *World) callMods(pkg *packages.Package, c *Ctx, call *ast.CallExpr, ms *
 				}
 			}
 			if !found {
-				ms.emits = true // unknown implementation: may communicate
+				ms.opaque = true // implementation outside the loaded packages: opaque events
 			}
 			return
 		}
